@@ -162,7 +162,8 @@ pub fn run_history(p: Prop, case: &HistCase, st: &mut Stats, known_open: &dyn Fn
         if o.code == op::LOAD && res.ok {
             w.rescan();
             if let Some(msg) = merge_duplicate(&mut w, res.model) {
-                let f = fail(p, "merge:duplicate-of-existing-identifiable-imported", msg, &w, case);
+                let sig = if msg.starts_with("[ONE-KIND]") { "merge:duplicate-imported:named-siblings-of-one-kind" } else { "merge:duplicate-of-existing-identifiable-imported" };
+                let f = fail(p, sig, msg, &w, case);
                 if known_open(&f.signature) {
                     st.class("ended:merge-duplicate(KF-C09-1)");
                     return Err(f);
@@ -314,7 +315,13 @@ fn merge_duplicate(w: &mut World, mi: usize) -> Option<String> {
             let pa = w.elems[a].parent().ok().flatten();
             let pb = w.elems[b].parent().ok().flatten();
             if same_kind && pa.is_some() && pa == pb {
-                return Some(format!("after the merge two <{}> siblings have the path {p:?}", w.elems[a].element_name()));
+                // KF-C09-1 needs named siblings of DIFFERENT kinds under the parent (the positional walk decides "only in the
+                // new file" from the specification order of two different kinds); with one kind only it is something else
+                let mut kinds: Vec<String> = pa.as_ref().unwrap().sub_elements().filter(|k| k.is_identifiable()).map(|k| k.element_name().to_string()).collect();
+                kinds.sort();
+                kinds.dedup();
+                let tag = if kinds.len() >= 2 { "" } else { "[ONE-KIND]" };
+                return Some(format!("{tag}after the merge two <{}> siblings have the path {p:?}", w.elems[a].element_name()));
             }
         }
     }
